@@ -94,7 +94,13 @@ type c14Interp struct {
 	locals   map[types.Object]cpoly
 	localsC  map[types.Object]gateEntry // local complex values: zero := Complex32{0, 0}
 	alias    map[types.Object]string    // helper parameter -> the caller's angle name
+	angles   map[types.Object]angleLocal // float locals holding an angle (half := float64(phase / 2))
 	loopBind map[ast.Stmt]map[types.Object]*float64
+}
+
+type angleLocal struct {
+	a    angleArg
+	sign int
 }
 
 // evalTuple evaluates a call that yields several reals: math.Sincos, or a straight-line helper of
@@ -230,9 +236,17 @@ func (ci *c14Interp) assignReals(x *ast.AssignStmt, info *types.Info, params map
 			return "-"
 		}
 		var ps []cpoly
-		for _, e := range x.Rhs {
+		for i, e := range x.Rhs {
 			p, why := ci.evalReal(e, info, params, angle)
 			if why != "" {
+				// not a value but an angle kept for later (half := float64(phase / 2))
+				if a, sg, w2 := ci.evalAngle(e, info, params); w2 == "" && len(x.Rhs) == 1 {
+					if ci.angles == nil {
+						ci.angles = map[types.Object]angleLocal{}
+					}
+					ci.angles[isFloat(x.Lhs[i])] = angleLocal{a, sg}
+					return ""
+				}
 				return why
 			}
 			ps = append(ps, p)
@@ -352,6 +366,9 @@ func (ci *c14Interp) evalAngle(e ast.Expr, info *types.Info, params map[types.Ob
 		}
 	case *ast.Ident:
 		if o := info.ObjectOf(x); o != nil {
+			if al, ok := ci.angles[o]; ok {
+				return al.a, al.sign, ""
+			}
 			if pv, ok := params[o]; ok {
 				if pv != nil {
 					return angleArg{isConst: true, val: *pv}, 1, ""
